@@ -547,14 +547,36 @@ def _has_ambiguous_names(p):
     return any(v > 1 for v in seen.values())
 
 
-def all_cfgs(q):
+def profiles(q):
     pool = ["item", "code", "data", "info", "list", "note"]
-    return core_cfgs(q) + wsdl_cfgs(q)[1:] + [
-        ("names", gen.cfg_with(files=(2, 4), quarantine=q, name_pool=pool, max_words=2, keyword_rate=0.0, reuse_names=True,
-                               p_ref=0.45, p_ext=0.45, p_cross_file=0.7, elements_per_file=(1, 3), complex_per_file=(2, 4))),
-        ("names-wsdl", gen.cfg_with(files=(2, 3), wsdl=True, quarantine=q, name_pool=pool + ["part", "body"], max_words=2, keyword_rate=0.0,
-                                    reuse_names=True, p_ref=0.4, p_cross_file=0.7, attr_named_simple=False, ops=(1, 3),
-                                    complex_per_file=(1, 2), simple_per_file=(0, 2), elements_per_file=(1, 2), p_part_name_differs=0.3))]
+    d = dict(core_cfgs(q))
+    d.update(dict(wsdl_cfgs(q)))
+    d.update({
+        "restr": gen.cfg_with(files=(1, 3), wsdl=True, quarantine=q, simple_per_file=(3, 6), complex_per_file=(1, 3),
+                              elements_per_file=(0, 1), p_simple_derived=0.5, headers=(0, 2), ops=(1, 3), p_oneway=0.3),
+        "ext": gen.cfg_with(files=(1, 3), quarantine=q, p_ext=0.75, complex_per_file=(3, 6), simple_per_file=(0, 2),
+                            elements_per_file=(0, 2), p_cross_file=0.6),
+        "ext-keywords": gen.cfg_with(files=(2, 3), quarantine=q, p_ext=0.75, complex_per_file=(3, 5), keyword_rate=0.25),
+        "names": gen.cfg_with(files=(2, 4), quarantine=q, name_pool=pool, max_words=2, keyword_rate=0.0, reuse_names=True,
+                              p_ref=0.45, p_ext=0.45, p_cross_file=0.7, elements_per_file=(1, 3), complex_per_file=(2, 4)),
+        "names-wsdl": gen.cfg_with(files=(2, 3), wsdl=True, quarantine=q, name_pool=pool + ["part", "body"], max_words=2, keyword_rate=0.0,
+                                   reuse_names=True, p_ref=0.4, p_cross_file=0.7, attr_named_simple=False, ops=(1, 3),
+                                   complex_per_file=(1, 2), simple_per_file=(0, 2), elements_per_file=(1, 2), p_part_name_differs=0.3),
+        "ns": gen.cfg_with(files=(2, 4), quarantine=q, adversarial_uris=True, nested_xmlns=0.4, complex_per_file=(1, 2),
+                           simple_per_file=(1, 2), elements_per_file=(0, 1), p_cross_file=0.8, default_ns_own=0.4),
+        "ns-wsdl": gen.cfg_with(files=(2, 4), wsdl=True, quarantine=q, adversarial_uris=True, nested_xmlns=0.4, complex_per_file=(0, 1),
+                                simple_per_file=(0, 1), elements_per_file=(0, 1), ops=(1, 2), attr_named_simple=False, p_cross_file=0.8),
+    })
+    return d
+
+
+def pick(q, *names):
+    d = profiles(q)
+    return [(n, d[n]) for n in names]
+
+
+def all_cfgs(q):
+    return list(profiles(q).items())
 
 
 def run_c14(tier):
@@ -572,7 +594,7 @@ def run_c14(tier):
         base = Program(0, gen_c14.base_program(), root, "baseline")
         base.port = None
         progs.append(base)
-        for kw, pos, ss in gen_c14.keyword_matrix(kws):
+        for kw, pos, ss in gen_c14.keyword_matrix(kws, None if tier == "thorough" else ["move", "type", "match", "self", "gen"]):
             p = Program(len(progs), ss, root, f"keyword:{kw}@{pos}")
             p.port = None
             p.c14 = ("keyword", kw, pos, None)
@@ -661,7 +683,9 @@ def run_c14(tier):
 
 
 def _kw_class(kw):
-    from .model import NOT_RAW, STRICT_KEYWORDS, RESERVED_KEYWORDS
+    from .model import NOT_RAW, STRICT_KEYWORDS, RESERVED_KEYWORDS, KEYWORDS
+    if kw not in KEYWORDS and kw.lower() in KEYWORDS:
+        return "keyword-after-case-conversion"
     if kw in NOT_RAW:
         return "cannot-be-raw"
     if kw in STRICT_KEYWORDS:
@@ -698,8 +722,7 @@ def run(prop, tier):
                       nontrivial=lambda p: p.stats.get("operations_run", 0) > 0, min_eval=4)
     elif prop == "C07":
         from . import engine_w
-        cfgs = [("restr", gen.cfg_with(files=(1, 3), wsdl=True, quarantine=q, simple_per_file=(3, 6), complex_per_file=(1, 3),
-                                       elements_per_file=(0, 1), p_simple_derived=0.5, headers=(0, 2), ops=(1, 3), p_oneway=0.3))]
+        cfgs = pick(q, "restr")
         check_generic("C07", tier, cfgs, 12, 300, sig_c07, ["static", "probe", engine_w.stage_restr], rule=(
             "WSDL programs with 3-6 restricted simple types per file (all facet kinds, derivation chains across namespaces) used as "
             "elements and attributes, optional/repeated, nested, in header and body elements; per operation: 4 all-valid request "
@@ -709,9 +732,7 @@ def run(prop, tier):
             "Non-trivial = programs with >= 1 violating sample; evidence lists the (part/position/depth/optional/repeated/facet/derivation) cells"),
             nontrivial=lambda p: p.stats.get("restr_samples", 0) > p.stats.get("restr_valid_samples", 0), min_eval=4)
     elif prop == "C08":
-        cfgs = [("ext", gen.cfg_with(files=(1, 3), quarantine=q, p_ext=0.75, complex_per_file=(3, 6), simple_per_file=(0, 2),
-                                     elements_per_file=(0, 2), p_cross_file=0.6)),
-                ("ext-keywords", gen.cfg_with(files=(2, 3), quarantine=q, p_ext=0.75, complex_per_file=(3, 5), keyword_rate=0.25))]
+        cfgs = pick(q, "ext", "ext-keywords")
         check_generic("C08", tier, cfgs, 24, 800, sig_c08, ["static", "probe", stage_runtime], rule=(
             "extension forests: depth 1-4 chains, bases declared before/after/in another file, own content empty / sequences / choices / "
             "attributes, same or different namespaces; oracle = the C02 member-list and typed-probe oracle restricted to derived "
@@ -720,12 +741,7 @@ def run(prop, tier):
             nontrivial=lambda p: any(ft.startswith("extension") for ft in p.ss.features))
     elif prop == "C09":
         from . import engine_w
-        pool = ["item", "code", "data", "info", "list", "note"]
-        cfgs = [("names", gen.cfg_with(files=(2, 4), quarantine=q, name_pool=pool, max_words=2, keyword_rate=0.0, reuse_names=True,
-                                       p_ref=0.45, p_ext=0.45, p_cross_file=0.7, elements_per_file=(1, 3), complex_per_file=(2, 4))),
-                ("names-wsdl", gen.cfg_with(files=(2, 3), wsdl=True, quarantine=q, name_pool=pool + ["part", "body"], max_words=2, keyword_rate=0.0,
-                                            reuse_names=True, p_ref=0.4, p_cross_file=0.7, attr_named_simple=False, ops=(1, 3),
-                                            complex_per_file=(1, 2), simple_per_file=(0, 2), elements_per_file=(1, 2), p_part_name_differs=0.3))]
+        cfgs = pick(q, "names", "names-wsdl")
         check_generic("C09", tier, cfgs, 24, 800, sig_c09,
                       ["static", "probe", stage_runtime, lambda p: engine_w.stage_wsdl(p, full_matrix=False)], rule=(
             "schema sets in which a pool of six words is reused for types in every namespace, global elements, local elements, attributes, "
@@ -735,10 +751,7 @@ def run(prop, tier):
             "some local name is used by >= 2 components"),
             nontrivial=_has_ambiguous_names)
     elif prop == "C10":
-        cfgs = [("ns", gen.cfg_with(files=(2, 4), quarantine=q, adversarial_uris=True, nested_xmlns=0.4, complex_per_file=(1, 2),
-                                    simple_per_file=(1, 2), elements_per_file=(0, 1), p_cross_file=0.8)),
-                ("ns-wsdl", gen.cfg_with(files=(2, 4), wsdl=True, quarantine=q, adversarial_uris=True, nested_xmlns=0.4, complex_per_file=(0, 1),
-                                         simple_per_file=(0, 1), elements_per_file=(0, 1), ops=(1, 2), attr_named_simple=False, p_cross_file=0.8))]
+        cfgs = pick(q, "ns", "ns-wsdl")
         check_generic("C10", tier, cfgs, 48, 3000, sig_c10, ["static", "probe", stage_ns, lambda p: stage_runtime(p, 1, False)], rule=(
             "2-4 namespaces per set drawn from an adversarial pool (equal last path segments /v1/types /v2/types, equal three-letter "
             "abbreviations, dots, dashes, trailing slashes, URNs, non-ASCII, digits only), declared on the root, on the using component, "
@@ -791,12 +804,23 @@ def stage_runtime(p, values_per_struct=4, with_docs=True):
             if not constrained:
                 tree.origin = "root-unconstrained"
             docs = [instance.render(tree, st, rng("doc", p.label, cid, st)) for st in instance.STYLES] if with_docs else []
+            r_lit = p.refemit.literal(v)
             try:
                 g_lit = glit.literal(v)
             except driver.GLit.Unbuildable:
                 unbuildable += 1
+                # the struct deviates from the reference mapping (C02 reports that); the wire-level round trip of valid
+                # instance documents is still judged: read each document into the emitted type and write it again
+                hits = p.located.get(id(e), [])
+                if len(hits) == 1 and docs:
+                    docs_src = ", ".join(driver.rust_str(d) for d in docs)
+                    fn = (f"fn case_{cid}() {{\n    let docs: [&str; {len(docs)}] = [{docs_src}];\n"
+                          f"    {{ let rv = {r_lit}; run_case({driver.rust_str(cid)}, \"r\", &rv, &docs); }}\n"
+                          f"    run_docs::<{refmap.rust_path(hits[0])}>({driver.rust_str(cid)}, \"g\", &docs);\n"
+                          f"    emit(format!(\"{{{{\\\"ev\\\":\\\"case-done\\\",\\\"id\\\":{{}}}}}}\", js({driver.rust_str(cid)})));\n}}\n")
+                    cases.append((cid, fn))
+                    meta[cid] = {"entry": e, "value": v, "tree": tree, "docs": docs, "constrained": constrained, "docs_only": True}
                 continue
-            r_lit = p.refemit.literal(v)
             docs_src = ", ".join(driver.rust_str(d) for d in docs)
             fn = (f"fn case_{cid}() {{\n    let docs: [&str; {len(docs)}] = [{docs_src}];\n"
                   f"    {{ let rv = {r_lit}; run_case({driver.rust_str(cid)}, \"r\", &rv, &docs); }}\n"
@@ -859,9 +883,14 @@ def stage_runtime(p, values_per_struct=4, with_docs=True):
         r_diffs = set()
         if rs_ and rs_["ok"]:
             r_diffs = {dclass(d) for d in diffs_of(rs_["text"], tree)}
-        if gs is None:
+        if gs is None and not m.get("docs_only"):
             continue
-        if not gs["ok"]:
+        if m.get("docs_only"):
+            bump("docs_only_cases")
+            gs = {"ok": False, "skip": True}
+        if gs.get("skip"):
+            pass
+        elif not gs["ok"]:
             if rs_ and not rs_["ok"]:
                 bump("excluded:ser-error-in-reference-too")
             else:
